@@ -23,7 +23,7 @@ ASSUME = ["Earth-Sun factor formula 1-0.0334*cos(2*pi*(jday-2)/365.25) is evalua
 TB = ["coqc 8.16.1 kernel; vm_compute decides the finite calendar sweep (every day 1970..2100)",
       "correspondence check_meta evaluated in Coq; histories compared with P_Cache.canon_run by the harness"]
 
-OPS = ["times", "lonlat", "dataset", "calibrated", "angles", "meta", "save"]
+OPS = ["times", "lonlat", "dataset", "calibrated", "angles", "meta", "save", "getters", "getters"]
 
 
 def factor(jday):
@@ -60,6 +60,10 @@ def do_op(r, op):
     if op == "angles":
         r.get_angles()
         return ("angles", None)
+    if op == "getters":   # the two public metadata functions asked directly (possibly before any coordinate was computed)
+        r.get_midnight_scanline()
+        r.get_sun_earth_distance_correction()
+        return ("getters", None)
     if op == "save":      # writes the three legacy files for a cut of the pass; the reader's own metadata must not change
         import tempfile, shutil
         out = tempfile.mkdtemp(prefix="pv_c18_", dir=os.environ.get("VERIF_SCRATCH", "/tmp"))
@@ -85,6 +89,7 @@ def run(res, tier, seed):
                   ("gac_pod", "noaa10", 1989, True)]
     coq = []
     long_done = {}
+    script_done = {}
     with common.scratch_dir() as d:
         tle_dir, tle_name = impl.make_tle_dir(d)
         for fmt, sc, year, drift in plans:
@@ -94,6 +99,12 @@ def run(res, tier, seed):
                 long_done[(fmt, sc)] = True
                 n = 1300          # one pass of more than 1024 lines per family
             kind = rng.choice(["midnight", "midnight", "newyear", "plain", "leapday", "day366", "twosteps"])
+            scripted = None
+            if drift and fam == "pod" and not script_done.get(fmt):
+                # once per POD format: the metadata functions are asked BEFORE any coordinate is computed, on a pass whose
+                # midnight line is moved by the clock-drift shift
+                script_done[fmt] = True
+                kind, scripted = "midnight", ["getters", "times", "getters", "lonlat", "getters", "dataset"]
             first = rng.choice([1, 1, 4, 25])
             gaps = [(rng.randrange(2, n - 2), rng.choice([1, 2, 6]))] if rng.random() < 0.6 else []
             # a record stored twice and a later one absent: the number of records says nothing about completeness
@@ -152,7 +163,7 @@ def run(res, tier, seed):
                 lines[j], lines[j + 1] = lines[j + 1], lines[j]
                 swapped = j
             data = l1b.build_file(fmt, sc, tg.dt_of(p["header"]), lines)
-            hist = [rng.choice(OPS) for _ in range(rng.randint(1, 5))] + ["meta"]
+            hist = (scripted or [rng.choice(OPS) for _ in range(rng.randint(1, 5))]) + ["meta"]
             ctx = dict(fmt=fmt, spacecraft=sc, n=n, kind=kind, first=first, gaps=gaps, start=str(tg.dt_of(start)),
                        adjust_clock_drift=drift, history=hist, seed=seed, records_swapped_at=swapped,
                        records_repeated_at=rep_at)
@@ -202,7 +213,7 @@ def run(res, tier, seed):
                                                dict(info, attrs_midnight=m_, from_dataset_times=em, dataset_times_final=(t == final))))
                 elif kind_o == "meta" and not before and val.get("midnight_scanline", "absent") != "absent":
                     res.violations.append(("meta data present before any coordinate computation", info))
-                if op not in ("times", "meta"):
+                if op not in ("times", "meta", "getters"):
                     before = True
             nontriv = mid is not None or bool(miss) or kind != "plain"
             res.add_case((fmt, sc, start, tuple(nums[:5]), tuple(hist)), nontriv,
